@@ -232,10 +232,10 @@ var verifVVCfgs = []verifVV{
 		[]labels.Labels{stub.Labels("__name__", "foo", "a", "x", "b", "1"), stub.Labels("__name__", "foo", "a", "x", "b", "2")},
 		[]labels.Labels{stub.Labels("__name__", "bar", "a", "x", "c", "z")},
 		parser.VectorMatching{Card: parser.CardManyToOne, On: true, MatchingLabels: []string{"a"}, Include: []string{"c"}}},
-	{"N:1 on(a) group_left(a) (include a matching label)",
+	{"N:1 on(a) group_left(b) (included label also present on the many side)",
 		[]labels.Labels{stub.Labels("__name__", "foo", "a", "x", "b", "1")},
-		[]labels.Labels{stub.Labels("__name__", "bar", "a", "x", "c", "z")},
-		parser.VectorMatching{Card: parser.CardManyToOne, On: true, MatchingLabels: []string{"a"}, Include: []string{"a"}}},
+		[]labels.Labels{stub.Labels("__name__", "bar", "a", "x", "b", "9")},
+		parser.VectorMatching{Card: parser.CardManyToOne, On: true, MatchingLabels: []string{"a"}, Include: []string{"b"}}},
 	{"1:N on(a) group_right",
 		[]labels.Labels{stub.Labels("__name__", "bar", "a", "x", "c", "z")},
 		[]labels.Labels{stub.Labels("__name__", "foo", "a", "x", "b", "1"), stub.Labels("__name__", "foo", "a", "x", "b", "2")},
@@ -432,6 +432,9 @@ func VerifH05c() {
 					sym.Known("KF-C05-D8b", true)
 				}
 				sym.Known("KF-C05-D10", d10)
+				if ci == 5 {
+					sym.Known("KF-C05-D9", true)
+				}
 				sym.Assert("C05/vv/labels", found)
 			}
 		}
